@@ -225,6 +225,30 @@ def build_cfg(prods, v, start="S", vars_=VARS, terms=TERMS, order=None, as_list=
     return CFG(start_symbol=Variable(start) if start is not None else None, productions=ps)
 
 
+
+# ----------------------------------------------------------------------------------------
+# 5-state partial DFAs over {a,b}: the a-row is one of a few fixed shapes, the b-row is free.
+# (sizes at which Hopcroft's processing list holds classes for both symbols at once; exhaustive
+#  enumeration of 6^10 tables is out of reach, so the a-row is a parameter of the slice)
+DFA5_AROWS = [
+    (1, 2, 3, 4, None),     # chain 0->1->2->3->4
+    (0, 2, 3, 4, 1),        # a permutation: fixed point 0 and the cycle 1->2->3->4->1
+    (1, 2, 0, 4, 3),        # a permutation: the cycles (0 1 2) and (3 4)
+    (1, 2, 3, 4, 0),        # one 5-cycle
+]
+DFA5_FINALS = [[2, 3, 4], [0, 2, 4]]
+
+
+def dfa5_edges(arow, b):
+    """arow: index into DFA5_AROWS (symbolic int), b: 5 ints in 0..5 (0 = no b-transition, v = to state v-1)."""
+    ar = DFA5_AROWS[pick(arow, len(DFA5_AROWS))]
+    edges = [(q, 1, ar[q]) for q in range(5) if ar[q] is not None]
+    for q in range(5):
+        v = pick(b[q], 6)
+        if v > 0:
+            edges.append((q, 2, v - 1))
+    return edges
+
 # ----------------------------------------------------------------------------------------
 # pushdown automata
 
